@@ -59,17 +59,14 @@ Definition digit_val (b : N) : Z := Z.of_N b - 48.
 Definition maxUint : Z := 2 ^ 64 - 1.
 
 (* first loop: accumulate digits into the uint64 mantissa with the two overflow guards.
-   Returns (mantissa, rest).  Mirrors the code exactly, including that `mantissa *= 10` has
-   already happened when the second guard breaks. *)
+   Returns (mantissa, rest). *)
 Fixpoint scan_int (s : bytes) (mant : Z) : Z * bytes :=
   match s with
   | b :: t =>
       if is_digit b then
         if mant >? maxUint / 10 then (mant, s)
-        else
-          let mant10 := mant * 10 in
-          if mant10 >? maxUint - digit_val b then (mant10, s)
-          else scan_int t (mant10 + digit_val b)
+        else if mant * 10 >? maxUint - digit_val b then (mant, s)
+        else scan_int t (mant * 10 + digit_val b)
       else (mant, s)
   | [] => (mant, s)
   end.
@@ -81,34 +78,32 @@ Fixpoint shrink_mantissa (fuel : nat) (mant_max mant expo : Z) : Z * Z :=
                else (mant, expo)
   end.
 
-(* exponent_t arithmetic wraps (int16_t for double, int8_t for float builds) *)
-Fixpoint skip_digits (ebits : Z) (s : bytes) (expo : Z) : Z * bytes :=
+(* exponent_offset is an `int`; a literal would need 2^31 digits to wrap it, so it is modelled
+   as an unbounded integer (stated in the trusted base) *)
+Fixpoint skip_digits (s : bytes) (expo : Z) : Z * bytes :=
   match s with
-  | b :: t => if is_digit b then skip_digits ebits t (wrapZs ebits (expo + 1)) else (expo, s)
+  | b :: t => if is_digit b then skip_digits t (expo + 1) else (expo, s)
   | [] => (expo, s)
   end.
 
-Fixpoint scan_frac (ebits mant_max : Z) (s : bytes) (mant expo : Z) : Z * Z * bytes :=
+Fixpoint scan_frac (mant_max : Z) (s : bytes) (mant expo : Z) : Z * Z * bytes :=
   match s with
   | b :: t =>
       if is_digit b then
         if mant <? mant_max / 10
-        then scan_frac ebits mant_max t (mant * 10 + digit_val b) (wrapZs ebits (expo - 1))
-        else scan_frac ebits mant_max t mant expo
+        then scan_frac mant_max t (mant * 10 + digit_val b) (expo - 1)
+        else scan_frac mant_max t mant expo
       else (mant, expo, s)
   | [] => (mant, expo, s)
   end.
 
-(* exponent digits with the early exit; result: inl early | inr (exponent, rest) *)
-Fixpoint scan_exp (exp_max : Z) (s : bytes) (expo expoff : Z) : bool (*early*) * Z * bytes :=
+(* exponent digits, accumulated with saturation *)
+Fixpoint scan_exp (s : bytes) (expo : Z) : Z * bytes :=
   match s with
   | b :: t =>
-      if is_digit b then
-        let e := wrapZs 32 (expo * 10 + digit_val b) in
-        if e + expoff >? exp_max then (true, e, t)
-        else scan_exp exp_max t e expoff
-      else (false, expo, s)
-  | [] => (false, expo, s)
+      if is_digit b then scan_exp t (if expo <? 10000 then expo * 10 + digit_val b else expo)
+      else (expo, s)
+  | [] => (expo, s)
   end.
 
 Definition jfmt (c : cfg) : fmt := if use_double c then F64 else F32.
@@ -120,7 +115,6 @@ Definition hd0 (s : bytes) : N := match s with b :: _ => b | [] => 0%N end.
 Definition parse_number (c : cfg) (s0 : bytes) : number :=
   let mant_max := if use_double c then 2 ^ 52 - 1 else 2 ^ 23 - 1 in
   let exp_max := if use_double c then 308 else 38 in
-  let ebits := if use_double c then 16 else 8 in
   let '(neg, s) := match s0 with
                    | 45%N :: t => (true, t)
                    | 43%N :: t => (false, t)
@@ -142,10 +136,10 @@ Definition parse_number (c : cfg) (s0 : bytes) : number :=
     | Some r => r
     | None =>
         let '(mant, expoff) := shrink_mantissa 30 mant_max mant 0 in
-        let '(expoff, s) := skip_digits ebits s expoff in
+        let '(expoff, s) := skip_digits s expoff in
         let '(mant, expoff, s) :=
           match s with
-          | 46%N :: t => scan_frac ebits mant_max t mant expoff
+          | 46%N :: t => scan_frac mant_max t mant expoff
           | _ => (mant, expoff, s)
           end in
         let go (expo : Z) (s : bytes) : number :=
@@ -153,14 +147,28 @@ Definition parse_number (c : cfg) (s0 : bytes) : number :=
           match s with
           | _ :: _ => NumInvalid
           | [] =>
-              let is_double := use_double c &&
-                ((expo <? -38) || (expo >? 38) || (mant >? 2 ^ 23 - 1)) in
-              let f := if is_double then F64 else F32 in
-              match make_float f (f_of_Z f mant) expo with
-              | Some r => let r := if neg then fneg r else r in
-                          if is_double then NumDouble r else NumFloat r
-              | None => NumFault
-              end
+              if mant =? 0 then NumFloat (S754_zero neg)
+              else if expo >? exp_max then mk_jfloat c (S754_infinity neg)
+              else if expo <? - exp_max - 20 then NumFloat (S754_zero neg)
+              else
+              let sgn (r : spec_float) := if neg then fneg r else r in
+              let as_double :=
+                match make_float F64 (f_of_Z F64 mant) expo with
+                | Some r => NumDouble (sgn r)
+                | None => NumFault
+                end in
+              if use_double c then
+                if (expo <? -38) || (expo >? 38) || (mant >? 2 ^ 23 - 1) then as_double
+                else
+                  match make_float F32 (f_of_Z F32 mant) expo with
+                  | Some r => if is_inf r then as_double else NumFloat (sgn r)
+                  | None => NumFault
+                  end
+              else
+                match make_float F32 (f_of_Z F32 mant) expo with
+                | Some r => NumFloat (sgn r)
+                | None => NumFault
+                end
           end in
         match s with
         | b :: t =>
@@ -170,11 +178,8 @@ Definition parse_number (c : cfg) (s0 : bytes) : number :=
                                   | 43%N :: t' => (false, t')
                                   | _ => (false, t)
                                   end in
-              let '(early, e, t) := scan_exp exp_max t 0 expoff in
-              if early then
-                if negexp then NumFloat (S754_zero neg)
-                else mk_jfloat c (S754_infinity neg)
-              else go (if negexp then - e else e) t
+              let '(e, t) := scan_exp t 0 in
+              go (if negexp then - e else e) t
             else go 0 s
         | [] => go 0 s
         end
